@@ -845,6 +845,24 @@ CHECKS["C02"]["note"] = CHECKS["C02"]["note"] + (" Below IR 10 the experimental 
     "function level (C02_function_experimental_ir9); at model level it is covered by the model-vs-implementation stream and the "
     "oracle, outside wf_model.")
 
+CHECKS["C02"]["note"] = TRUST + ("No open findings; six defects found by this check are fixed in /repo (c4d9dd5, 952a3c2, 86f4e6a, "
+    "66aa20a, fb2515e, b6bf1ea). Below IR 10 the experimental function value-info format is proved at function level "
+    "(C02_function_experimental_ir9). At model level it, repeated graph outputs and value_info entries naming graph outputs are "
+    "covered by model-vs-implementation streams and the oracle, outside wf_model. Protobuf presence of map-entry keys/values, "
+    "UTF-8 validity and decimal int parsing are modelled, not verified; sparse attributes and map types raise "
+    "NotImplementedError in serde (outside wf).")
+CHECKS["C05"].update(
+    text="31+ closed Coq theorems. C05_sequence and C05_sequence_checked cover 13 modelled passes, including certificate-checked "
+         "InlinePass and RemoveUnusedFunctions, with executable hypotheses evaluated in Coq per step. RemoveUnusedOpsets is "
+         "modelled with the opset tables (C05_remove_unused_opsets_keeps_versions); its body _process_graph_like and DCE's "
+         "_remove_trailing_empty_inputs are translated from the source on every run and proved equal to the hand models "
+         "(C05_remove_unused_opsets_translation_equiv, C05_trim_translation_equiv). The inliner's import merge is covered by "
+         "C05_inline_merges_opset_imports. NameFix, ClearMetadata and ShapeInference leave the term unchanged "
+         "(C05_frame_passes_preserve; the annotations they write are judged by the full checker and the execution oracle). "
+         "Excluded: RemoveUnusedNodes on BatchNormalization with a training_mode attribute (known finding, refuted in Coq).")
+CHECKS["C05"]["technique"] = CHECKS["C05"]["technique"] + ("; fail-closed ast->Gallina translations of two pass bodies with "
+    "equivalence theorems; de-overloaded execution for IR 10 overloads")
+
 
 def main():
     props = [json.loads(l) for l in open(os.path.join(VERIF, "properties.jsonl"))]
